@@ -235,6 +235,7 @@ type File struct {
 	OnlyCalledFrom [][2]string // (callee name, caller): mechanical call-site scan
 	ConstTables []string // globals whose composite-literal initialiser is read from the source
 	GlobalInvs []*GlobalInv
+	OverridesAll [][3]string // (Type, embedded field, function whose report carries the scan): the type declares every error-returning method of the embedded interface itself
 	FieldIs [][2]string // (Type.field, function): the function-valued field only ever holds this function (scan)
 }
 
@@ -253,4 +254,5 @@ func (f *File) Merge(g *File) {
 	f.StoredOnlyIn = append(f.StoredOnlyIn, g.StoredOnlyIn...)
 	f.GlobalInvs = append(f.GlobalInvs, g.GlobalInvs...)
 	f.FieldIs = append(f.FieldIs, g.FieldIs...)
+	f.OverridesAll = append(f.OverridesAll, g.OverridesAll...)
 }
